@@ -286,3 +286,9 @@ package eval
 //@   loop 1 invariant s.depth == old(s.depth) && s.env == old(s.env) && s.Out == old(s.Out)
 //@   loop 1 invariant s.env.numReg == old(s.env.numReg) + ite(ptr != nil, 1, 0)
 //@   property C05 C10
+
+//@ func (*State).Reset
+//@   requires s != nil
+//@   modifies s.env, s.depth
+//@   ensures  s.depth == 0 && s.env == s.rootEnv
+//@   property C10
